@@ -222,3 +222,79 @@ def run(rep):
             extra = rng.choice(UNIT_CHOICES)
         ritems.append(item_for(sh, st, kind, extra))
     run_items(rep, ritems, "c07.rand")
+    setter_histories(rep, rng, 40 if quick else 800, sts)
+
+
+def setter_histories(rep, rng, nhist, sts):
+    """the format settings are state of the calculator: histories that change them through the five setters between
+    evaluations; every printed value is validated against the settings the model holds at that point (Trace.tla)"""
+    cases, metas = [], []
+    for hi in range(nhist):
+        cfg = render.cfg_with()
+        cur = {"dec": cfg["dec"], "tho": cfg["tho"]}
+        steps, evs = [], []
+        for k in range(30):
+            x = rng.random()
+            st = rng.choice(sts)
+            if x < 0.12:
+                steps.append({"op": "set_num", "d": st["d"], "remove": st["remove"], "round": st["round"]})
+                evs.append({"ev": "set_num", "d": st["d"], "remove": st["remove"], "round": st["round"]})
+            elif x < 0.24:
+                steps.append({"op": "set_pct", "d": st["d"], "remove": st["remove"], "round": st["round"]})
+                evs.append({"ev": "set_pct", "d": st["d"], "remove": st["remove"], "round": st["round"]})
+            elif x < 0.34:
+                steps.append({"op": "set_mon", "remove": st["remove"], "round": st["round"]})
+                evs.append({"ev": "set_mon", "remove": st["remove"], "round": st["round"]})
+            elif x < 0.44:
+                d, t = rng.choice(SEPS)
+                steps += [{"op": "set_dec", "v": d}, {"op": "set_tho", "v": t}]
+                evs += [{"ev": "set_dec", "v": d}, {"ev": "set_tho", "v": t}]
+                cur = {"dec": d, "tho": t}
+            else:
+                ip = str(rng.choice([0, 7, 99, 999, 1000, 12345, 999999, 1234567]))
+                fp = "".join(rng.choice("0459") for _ in range(rng.randint(0, 4)))
+                sh = {"neg": rng.random() < 0.3, "ip": digits_of(ip), "fp": digits_of(fp)}
+                kind = rng.choice(["num", "num", "pct", "money"])
+                extra = rng.choice(["usd", "jpy", "try", "eur"]) if kind == "money" else None
+                it = item_for(sh, cur, kind, extra)
+                steps.append({"op": "execute", "lang": "en", "text": it["text"]})
+                evs.append({"ev": "format", "_it": it})
+        cases.append({"id": "fh%d" % hi, "cfg": cfg, "want": ["dec"], "steps": steps, "fresh": True})
+        metas.append(evs)
+    obs = run_harness_stable_day(cases, "c07.hist", jobs=8)
+    cur_tab = render.config_json()["currencies"]
+    events, index = [], []
+    for case, evs, o in zip(cases, metas, obs):
+        events.append(reset_event(case["cfg"], 0))
+        index.append(None)
+        steps = o.get("steps") or []
+        for k, e in enumerate(evs):
+            if e["ev"] != "format":
+                events.append(e)
+                index.append(None)
+                continue
+            it = e["_it"]
+            st = steps[k] if k < len(steps) else o
+            line = st["res"]["lines"][0] if st.get("outcome") == "returned" and st["res"]["status"] and len(st["res"]["lines"]) == 1 else None
+            rep.case([case["id"], k], True)
+            if not line or not line.get("ok") or "dec" not in line.get("val", {}):
+                rep.violation({"check": "trace", "form": "format", "text": it["text"], "cfg": case["cfg"], "observed": line if line else st, "history": case["steps"][:k + 1],
+                               "feat": {"form": "format", "kind": it["kind"], "failure": "not_a_value"}, "class": "history|not_a_value|%s" % it["kind"]})
+                continue
+            neg, ip, fp, sticky = expansion(line["val"]["dec"])
+            sip, sfp = shortest(line["val"]["f"])
+            ev = {"ev": "format", "kind": it["kind"], "v": {"neg": neg, "ip": ip, "fp": fp, "sticky": sticky, "sip": sip, "sfp": sfp}, "out": list(line["out"]), "deco": {}, "digits": 0}
+            if it["kind"] == "money":
+                c = cur_tab[it["extra"].upper()]
+                ev["deco"] = {"sym": list(c["symbol"]), "left": c["symbolOnLeft"], "space": c["spaceBetweenAmountAndSymbol"]}
+                ev["digits"] = c["decimalDigits"]
+            events.append(ev)
+            index.append((case, k, it, line))
+    bad = validate_trace(rep, events, "c07.hist")
+    for b in bad:
+        case, k, it, line = index[b["l"] - 1]
+        allowed = ["".join(a) for a in b["expected"][0]["allowed"]]
+        rep.violation({"check": "trace", "form": "format", "text": it["text"], "cfg": case["cfg"], "history": case["steps"][:k + 1], "printed": line["out"], "allowed": allowed,
+                       "feat": {"form": "format", "kind": it["kind"], "failure": "wrong", "history": True}, "class": "history|format|%s" % it["kind"]})
+    if cases:
+        rep.sample({"setter_history": cases[0]["steps"][:8]})
